@@ -63,6 +63,7 @@ const (
 	opClone        = "Clone"
 	opOption       = "Option"
 	opCSP          = "CSPCompatible"
+	opDelims       = "Delims"
 	opExec         = "Execute"
 	opExecTmpl     = "ExecuteTemplate"
 	opExecHTML     = "ExecuteToHTML"
